@@ -393,6 +393,26 @@ func (s *Session) Resize(cols, rows int) error {
 	return err
 }
 
+// WaitRedraw waits until fzf has redrawn itself for the given terminal size (trace).
+func (s *Session) WaitRedraw(cols, rows int, timeout time.Duration) bool {
+	deadline := time.Now().Add(timeout)
+	for {
+		s.readTrace()
+		for i := len(s.trace) - 1; i >= 0; i-- {
+			if s.trace[i].Kind == "term.redraw" {
+				if s.trace[i].A == cols && s.trace[i].B == rows {
+					return true
+				}
+				break
+			}
+		}
+		if _, ok := s.ExitCode(); ok || time.Now().After(deadline) {
+			return false
+		}
+		time.Sleep(3 * time.Millisecond)
+	}
+}
+
 // Capture returns the visible screen, one string per row, right-trimmed.
 func (s *Session) Capture() ([]string, error) {
 	out, err := s.tmux("capture-pane", "-p", "-t", "main")
@@ -404,6 +424,12 @@ func (s *Session) Capture() ([]string, error) {
 		lines[i] = strings.TrimRight(lines[i], " ")
 	}
 	return lines, nil
+}
+
+// PaneSize reports tmux's idea of the pane size ("WxH").
+func (s *Session) PaneSize() (string, error) {
+	out, err := s.tmux("display-message", "-p", "-t", "main", "#{pane_width}x#{pane_height}")
+	return strings.TrimSpace(out), err
 }
 
 func (s *Session) CursorX() int {
